@@ -96,7 +96,7 @@ def Generator.removeRetiredConnIDs (g : Generator) (now : Int) : Generator × Li
 
 /-- every connection ID the generator still answers for -/
 def Generator.allIDs (g : Generator) : List Bytes :=
-  (match g.initialClientDest with | some id => [id] | none => []) ++ g.active.map (·.2) ++ g.toRetire.map (·.2)
+  g.initialClientDest.toList ++ g.active.map (·.2) ++ g.toRetire.map (·.2)
 
 /-- `RemoveAll` -/
 def Generator.removeAll (g : Generator) : List GEv := g.allIDs.map GEv.rmRoute
